@@ -65,11 +65,23 @@ def encode(case: Case, world: str) -> str:
     ])
 
 
+_CURRENT: dict = {}      # world -> set of (relpath, kind) currently on disk
+
+
 def materialise(case: Case, world: str) -> None:
-    if os.path.isdir(world):
-        shutil.rmtree(world)
-    os.makedirs(world)
-    for p, k in case.entries:
+    """Make the world directory contain exactly the entries of the case (+ its cwd).  Consecutive cases mostly share
+    the tree, so only the difference is applied."""
+    want = set((p, k) for p, k in case.entries)
+    if case.cwd and not any(p == case.cwd or p.startswith(case.cwd + "/") for p, _ in want):
+        want.add((case.cwd, "d"))
+    have = _CURRENT.get(world)
+    if have is None or not os.path.isdir(world) or have - want:
+        # something must disappear: start afresh (removing single entries would leave empty parents behind)
+        if os.path.isdir(world):
+            shutil.rmtree(world)
+        os.makedirs(world)
+        have = set()
+    for p, k in sorted(want - have):
         full = os.path.join(world, p)
         if k == "d":
             os.makedirs(full, exist_ok=True)
@@ -77,7 +89,7 @@ def materialise(case: Case, world: str) -> None:
             os.makedirs(os.path.dirname(full), exist_ok=True)
             with open(full, "w") as f:
                 f.write("")
-    os.makedirs(_abs(world, case.cwd), exist_ok=True)
+    _CURRENT[world] = want
 
 
 _SV = None
